@@ -5,13 +5,15 @@
 #include "core.h"
 #include "cal_common.h"
 #include "cal_driver.h"
+#include <array>
 #include "doc_common.h"
 
 namespace {
 
 static const int NSESS = 4;
-static const char *CAL_NAMES[] = {"alpha", "beta", "gamma", "delta", "cal with spaces", "\xc3\xa9talon", "alp", "alpha beta"};	// (some are prefixes of others)
-static const int NNAMES = 8;
+static const char *CAL_NAMES[] = {"alpha", "beta", "gamma", "delta", "cal with spaces", "\xc3\xa9talon", "alp", "alpha beta",	// (some are prefixes of others)
+    "n08", "n09", "n10", "n11", "n12", "n13", "n14", "n15", "n16", "n17", "n18", "n19"};	// (used by the table-filling scenario only: the calibration table grows 1 -> 8 -> 16 -> ...)
+static const int NNAMES = 20;
 
 struct LiveParam {
     ParamSpec spec;
@@ -45,6 +47,7 @@ struct CalSlot {
     bool has_unknown = false;
     bool has_vector = false;
     bool pure_trl = false;	// exactly through + unknown reflect + unknown line: the closed-form solution, in every order of entry
+    bool solved_with_m_error = false;
     double tol_floor = 0;	// after a save/load cycle the error terms carry the file's precision
     DNode props;
 };
@@ -100,6 +103,23 @@ static int classify_rect(const SessionSpec &ss, const std::vector<ParamSpec> &pa
 {
     for (const StdSpec &st : ss.stds) for (int pi : st.params) if (!params[(size_t)pi].known() || !exact_vector(params[(size_t)pi])) return 0;
     double f0 = ss.fv.empty() ? 1e9 : ss.fv[0];
+    if (world_class_of(ss.type) == W16) {
+	// 1x2 T16 / 2x1 U16: eleven unknown terms, two equations per fully specified two-port standard.  Determining (as
+	// libvna's own tests do it): enough generic standards - here at least nine 2x2 standards of scalar parameters whose
+	// matrices are pairwise well apart (nothing else is asserted for these shapes)
+	std::vector<std::array<zc, 4>> kept;
+	for (const StdSpec &st : ss.stds) {
+	    if (st.kind != 3) continue;
+	    std::array<zc, 4> m; bool scal = true;
+	    for (int k = 0; k < 4; ++k) { const ParamSpec &q = params[(size_t)st.params[(size_t)k]]; if (q.kind != 1) scal = false; m[(size_t)k] = param_truth(q, f0); }
+	    if (!scal) continue;
+	    if (st.ports[0] == 2) { std::swap(m[0], m[3]); std::swap(m[1], m[2]); }
+	    bool far = true;
+	    for (auto &y : kept) { double d = 0; for (int k = 0; k < 4; ++k) d = std::max(d, std::abs(m[(size_t)k] - y[(size_t)k])); if (d < 0.25) far = false; }
+	    if (far) kept.push_back(m);
+	}
+	return kept.size() >= 9 ? 1 : 0;
+    }
     std::vector<zc> kept;
     for (const StdSpec &st : ss.stds) {
 	zc g; bool have = false;
@@ -138,6 +158,7 @@ static int classify(const SessionSpec &ss, const std::vector<ParamSpec> &params)
 	}
 	return n;
     };
+    if (ss.dead_f >= 0) return 0;	// an instrument that reads zero at one frequency: nothing is claimed (the solve has to fail there, cleanly)
     bool any_unknown = false;
     for (const StdSpec &st : ss.stds) for (int pi : st.params) if (!params[(size_t)pi].known()) any_unknown = true;
     // a correlated parameter brings an unknown and a soft constraint: neither the counting nor the accuracy claim is made
@@ -286,6 +307,21 @@ static bool is_pure_trl(const SessionSpec &ss, const std::vector<ParamSpec> &par
     return t == 1 && r == 1 && l == 1;
 }
 
+// the frequency range a parameter must cover when a calibration registers it: its own (param_frange), and, for a correlated
+// parameter, that of the parameter it is correlated with, which is registered along with it (and so on down the chain)
+static bool registered_frange(const CalWorld &w, int pi, double &lo, double &hi)
+{
+    bool have = false;
+    for (int guard = 0; pi >= 0 && guard < 64; ++guard) {
+	const ParamSpec &p = w.params[(size_t)pi].spec;
+	double l, h;
+	if (param_frange(p, l, h)) { lo = have ? std::max(lo, l) : l; hi = have ? std::min(hi, h) : h; have = true; }
+	if (!p.corr) break;
+	pi = p.corr_other;
+    }
+    return have;
+}
+
 // ---- table check after every catalogue-changing operation ----------------------------
 static void check_table(CalWorld &w, const Op &op)
 {
@@ -363,13 +399,19 @@ static bool solo_apply(Ctx &c, const SessionSpec &ss_in, const std::vector<Param
 	if (!vcp) { why = "vnacal_create failed"; return false; }
 	std::vector<int> h(params.size(), -1);
 	bool ok = true;
+	std::vector<bool> needed(params.size(), false);
+	for (auto &st : s1.stds) for (int pi : st.params) for (int q = pi, guard = 0; q >= 0 && guard < 64; ++guard) { needed[(size_t)q] = true; q = params[(size_t)q].corr ? params[(size_t)q].corr_other : -1; }
 	for (size_t k = 0; k < params.size() && ok; ++k) {
 	    const ParamSpec &p = params[k];
-	    bool used = false;
-	    for (auto &st : s1.stds) for (int pi : st.params) if ((size_t)pi == k) used = true;
-	    if (!used) continue;
+	    if (!needed[k]) continue;
 	    LibCall lc(c);
-	    if (p.kind == 0) h[k] = p.predefined;
+	    if (p.kind == 3 && p.corr) {
+		// a correlated parameter: in the twin that solves one frequency at a time its sigma vector is replaced by the one value supplied for that frequency
+		int oh = p.corr_other < 0 ? p.predefined : h[(size_t)p.corr_other];
+		if (o.per_frequency && p.sf.size() > 1) { double s1v = sigma_at_knot(p, grp[0]); h[k] = s1v == s1v ? vnacal_make_correlated_parameter(vcp, oh, nullptr, 1, &s1v) : -1; }
+		else h[k] = vnacal_make_correlated_parameter(vcp, oh, p.sf.size() > 1 ? p.sf.data() : nullptr, (int)p.sv.size(), p.sv.data());
+	    }
+	    else if (p.kind == 0) h[k] = p.predefined;
 	    else if (p.kind == 1) h[k] = vnacal_make_scalar_parameter(vcp, toc(p.value));
 	    else if (p.kind == 2) { std::vector<cplx> gv; for (zc z : p.kv) gv.push_back(toc(z)); h[k] = vnacal_make_vector_parameter(vcp, p.kf.data(), (int)p.kf.size(), gv.data()); }
 	    else { int g = vnacal_make_scalar_parameter(vcp, toc(p.guess)); h[k] = vnacal_make_unknown_parameter(vcp, g); }
@@ -511,8 +553,10 @@ static void run_op(CalWorld &w, const Op &op, const Plan &plan)
 	std::vector<double> fv((size_t)n), sv((size_t)n, op.D(2, 0.01));
 	for (int q = 0; q < n; ++q) fv[(size_t)q] = n == 1 ? op.D(0, 1e9) : op.D(0, 1e9) + (op.D(1, 2e9) - op.D(0, 1e9)) * q / (n - 1);
 	if (n > 1) fv[(size_t)n - 1] = op.D(1, 2e9);
+	if (op.I(3) == 1) for (int q = 0; q < n; ++q) sv[(size_t)q] = op.D(2, 0.01) * (1 + 0.7 * sin(1.3 * q + 0.1 * (double)(op.I(4) % 60)));	// (far from linear in frequency)
 	LiveParam lp;
 	lp.spec.kind = 3; lp.spec.corr = true; lp.spec.corr_other = gi;
+	if (gi < 0) lp.spec.predefined = g.predefined;
 	lp.spec.guess = g.kind == 3 ? g.guess : param_truth(g, g.kind == 2 ? g.kf[0] : 1e9);
 	lp.spec.value = lp.spec.guess + zc(op.D(3, 0), op.D(4, 0));
 	int h;
@@ -534,6 +578,7 @@ static void run_op(CalWorld &w, const Op &op, const Plan &plan)
 	// sigma vector (if it has more than one point); the latter restricts this parameter only, not one that uses it as initial guess
 	if (!g.kf.empty()) lp.spec.kf = {g.kf.front(), g.kf.back()};
 	if (n > 1) lp.spec.sigma_range = {fv.front(), fv.back()};
+	lp.spec.sf = n > 1 ? fv : std::vector<double>{0.0}; lp.spec.sv = sv;
 	c.count("probe.correlated_parameter_created");
 	w.params.push_back(lp);
 	return;
@@ -625,7 +670,7 @@ static void run_op(CalWorld &w, const Op &op, const Plan &plan)
 	int type = (int)op.I(1), P = (int)op.I(2), F = (int)op.I(3);
 	bool valid = type >= VNACAL_T8 && type <= VNACAL_E12 && type != _VNACAL_E12_UE14 && P >= 1 && F >= 0;
 	// rectangular: a two-port VNA that drives (T types: detects) on one port only, 1x2 for T, 2x1 for U / E
-	bool rect = op.I(8) != 0 && valid && P == 2 && world_class_of(type) != W16;
+	bool rect = op.I(8) != 0 && valid && P == 2 && (world_class_of(type) != W16 || op.I(8) == 2);	// (2: also the 16-term types, T16 as 1x2, U16 as 2x1)
 	bool ttype = type == VNACAL_T8 || type == VNACAL_TE10 || type == VNACAL_T16;
 	int R = rect && ttype ? 1 : P, C = rect && !ttype ? 1 : P;
 	vnacal_new_t *vnp;
@@ -642,6 +687,7 @@ static void run_op(CalWorld &w, const Op &op, const Plan &plan)
 	double lo = op.D(0), hi = op.D(1);
 	for (int q = 0; q < F; ++q) s.spec.fv.push_back(F == 1 ? lo : lo + (hi - lo) * q / (F - 1));
 	s.spec.set_z0 = op.I(6) != 0;
+	if (op.I(9) == 1 && F >= 2 && !rect) { s.spec.dead_f = 1 + (int)(op.I(5) % (F - 1)); c.count("probe.session_with_a_dead_frequency"); }
 	s.spec.z0 = zc(op.D(2, 50), op.D(3, 0));
 	if (op.I(7) == 0) {	// frequency vector first (the usual order)
 	    int rc;
@@ -694,7 +740,7 @@ static void run_op(CalWorld &w, const Op &op, const Plan &plan)
 	for (int pi : s.added_params) {
 	    const ParamSpec &p = w.params[(size_t)pi].spec;
 	    double plo, phi;
-	    if (!param_frange(p, plo, phi)) continue;	// (an unknown inherits the range of a vector parameter given as its initial guess)
+	    if (!registered_frange(w, pi, plo, phi)) continue;	// (an unknown inherits the range of a vector parameter given as its initial guess)
 	    if (plo > s.spec.fv.front() || phi < s.spec.fv.back()) covered = false;
 	    if (plo > s.spec.fv.front() * 1.05 || phi < s.spec.fv.back() * 0.95) clearly_missed = true;
 	}
@@ -755,7 +801,7 @@ static void run_op(CalWorld &w, const Op &op, const Plan &plan)
 	if (s.fv_set) for (int pi : pidx) {
 	    const ParamSpec &p = w.params[(size_t)pi].spec;
 	    double plo, phi;
-	    if (!param_frange(p, plo, phi)) continue;	// (an unknown inherits the range of a vector parameter given as its initial guess)
+	    if (!registered_frange(w, pi, plo, phi)) continue;	// (an unknown inherits the range of a vector parameter given as its initial guess)
 	    if (plo > s.spec.fv.front() || phi < s.spec.fv.back()) covered = false;
 	    if (plo > s.spec.fv.front() * 1.05 || phi < s.spec.fv.back() * 0.95) clearly_missed = true;
 	}
@@ -830,7 +876,10 @@ static void run_op(CalWorld &w, const Op &op, const Plan &plan)
 	    // a correlated parameter is registered together with the parameter it is correlated with: if that one has been deleted
 	    // in the meantime (and this calibration has not seen it), the library refuses; not claimed either way
 	    bool corr_orphan = false;
-	    for (int pi : pidx) { const ParamSpec &q = w.params[(size_t)pi].spec; if (q.corr && q.corr_other >= 0 && !w.params[(size_t)q.corr_other].live && !s.handle_map.count(w.params[(size_t)q.corr_other].handle)) corr_orphan = true; }
+	    for (int pi : pidx) for (int q = pi, guard = 0; guard < 64 && w.params[(size_t)q].spec.corr && w.params[(size_t)q].spec.corr_other >= 0; ++guard) {	// (down the chain of correlates)
+		q = w.params[(size_t)q].spec.corr_other;
+		if (!w.params[(size_t)q].live && !s.handle_map.count(w.params[(size_t)q].handle)) corr_orphan = true;
+	    }
 	    if (corr_orphan && sc.err == EINVAL) { c.count("probe.correlated_with_deleted_parameter_refused"); return; }
 	    if (all_live && covered) { c.violate("model", "add:rc", strf("valid standard refused: kind %d ports %d,%d full %d variant %d: %s", st.kind, p1, p2, (int)st.full, st.variant, sc.msg.c_str())); return; }
 	    if (sc.err != EINVAL) { c.violate("model", "add:errno", strf("standard refused with errno %s, expected EINVAL", errno_name(sc.err))); return; }
@@ -900,6 +949,7 @@ static void run_op(CalWorld &w, const Op &op, const Plan &plan)
 	for (auto &st : s.solved_spec.stds) for (int pi : st.params) if (!pl[(size_t)pi].known()) slot.has_unknown = true;
 	for (auto &st : s.solved_spec.stds) for (int pi : st.params) if (pl[(size_t)pi].kind == 2) slot.has_vector = true;
 	slot.pure_trl = is_pure_trl(s.solved_spec, pl) && !s.solved_m_error;
+	slot.solved_with_m_error = s.solved_m_error;
 	auto it = w.table.find(name);
 	if (it != w.table.end()) { c.count("probe.replace_by_name"); if (it->second.ci != ci) c.count("probe.replace_moved_slot"); w.table.erase(it); }
 	for (auto &kv : w.table) if (kv.second.ci == ci) { c.violate("model", "addcal:index", strf("add_calibration(\"%s\") returned index %d which holds live calibration \"%s\"", name.c_str(), ci, kv.second.name.c_str())); return; }
@@ -927,12 +977,38 @@ static void run_op(CalWorld &w, const Op &op, const Plan &plan)
 	if (c.violated) return;
 	if (r.rc != 0 && !slot.determining && r.err == EDOM) { c.count("probe.apply_unclassified_set_singular"); return; }
 	if (r.rc != 0) { if (g_sim.fired_vna) return; c.violate("model", "apply:rc", strf("apply of calibration \"%s\" failed (%d, errno %s): %s", name.c_str(), r.rc, errno_name(r.err), r.msg.c_str())); return; }
+	if (!slot.determining && op.I(3) != 1 && slot.tol_floor == 0 && !slot.solved_with_m_error) {	// (on the calibration's own frequencies only)
+	    // C10 for sigma vectors: a calibration with correlated parameters whose sigma vectors have a knot at every calibration
+	    // frequency must correct like its twin that is solved one frequency at a time with the one sigma value supplied for
+	    // that frequency (the spline evaluates exactly to the supplied value there, whatever was evaluated before).  Claimed
+	    // only when both solves succeed; no accuracy against the truth is claimed (the sigma constraint is soft).
+	    bool corr = false, comparable = true;
+	    for (auto &st : slot.spec.stds) for (int pi : st.params) {
+		const ParamSpec &q = slot.params[(size_t)pi];
+		if (q.kind == 3 && !q.corr) comparable = false;
+		if (q.corr) { corr = true; if (q.corr_other >= 0 && slot.params[(size_t)q.corr_other].kind == 3) comparable = false; for (double f : slot.spec.fv) { double sv = sigma_at_knot(q, f); if (!(sv == sv)) comparable = false; } }
+	    }
+	    if (corr && comparable && slot.spec.dead_f < 0) {
+		SoloOpts o; o.per_frequency = true;
+		ApplyResult solo; std::string why;
+		if (!solo_apply(c, slot.spec, slot.params, fq, dut_seed, o, solo, why)) { if (!c.violated) c.count("probe.sigma_twin_not_solved"); return; }
+		double d = max_diff(r, solo);
+		c.log(" sigma twin differs by %g", d);
+		if (!(d <= 1e-4)) { c.violate("model", "apply:sigma", strf("calibration \"%s\" with sigma vectors and its twin solved one frequency at a time with the sigma value supplied for that frequency differ by %.3g", name.c_str(), d)); return; }
+		c.count("probe.sigma_twin_agrees");
+		c.nontrivial = true;
+		return;
+	    }
+	}
 	if (!slot.determining) { c.count("probe.apply_unclassified_set"); return; }
 	bool on_grid = op.I(3) != 1;
 	// between grid points the error terms are interpolated: asserted only with enough points to
 	// represent the (low-order polynomial) frequency dependence of the instrument
 	if (!on_grid && slot.spec.F < 5) { c.count("probe.apply_between_points_too_few_points"); return; }
 	double tol = slot.has_unknown ? 1e-4 : !on_grid ? 1e-4 : slot.has_vector ? 1e-5 : 1e-8;
+	// between the calibration points the solved terms (ratios of products of the instrument's linear-in-f terms) are
+	// interpolated from five or so points: the wider the band those points have to span, the coarser
+	if (!on_grid) { double r = slot.spec.fv.back() / slot.spec.fv.front(); if (r > 1) tol *= r * r; }
 	if (slot.tol_floor > tol) tol = slot.tol_floor;
 	if (slot.tol_floor > 1e-3) { c.count("probe.apply_after_low_precision_load"); return; }
 	double err = apply_error(slot.spec, fq, dut_seed, r);
